@@ -85,6 +85,10 @@ type loopInfo struct {
 	spec    *LoopSpec
 	phiNew  map[*ssa.Phi]Val
 	entrySt State
+	// set when the head was havocked under a `loop k modifies` clause: the memory assumed at the
+	// head and the cells assumed unchanged by an iteration (checked at every back edge)
+	headMem  string
+	keepCond string
 }
 
 func (x *Exec) val(fr *frame, v ssa.Value) Val {
@@ -561,6 +565,7 @@ func (x *Exec) havocLoopState(fr *frame, li *loopInfo, cur *State, r string) {
 			}
 			keep = and(keep, not(or(mods...)))
 			x.havocMem(cur, keep)
+			li.headMem, li.keepCond = cur.Mem, keep
 		} else if !calls && !callWrites && !x.loopStoresOld(fr, li) {
 			// only fresh objects are written
 			x.vc.havocFrame(cur, li.entrySt.Alloc)
@@ -641,6 +646,12 @@ func (x *Exec) loopStep(fr *frame, li *loopInfo, latch, head *ssa.BasicBlock) {
 	}
 	for i, f := range li.spec.InvFns {
 		x.vc.oblige(fmt.Sprintf("%s#inv-step:%s.f%d@b%d", x.eng.fnKey(fr.fn), x.loopName(fr, li), i+1, latch.Index), "inv-step", r, f(env, hphis), x.eng.pos(head.Instrs[0].Pos()))
+	}
+	// the iteration respects the loop's modifies clause: what the head assumed unchanged since
+	// loop entry is unchanged at the back edge too
+	if li.headMem != "" && st.Mem != li.headMem {
+		goal := fmt.Sprintf("(forall ((r Int) (o Int)) (=> (and (<= 0 r) %s) (= (%s r o) (%s r o))))", li.keepCond, st.Mem, li.headMem)
+		x.vc.oblige(fmt.Sprintf("%s#inv-step:%s.frame@b%d", x.eng.fnKey(fr.fn), x.loopName(fr, li), latch.Index), "inv-step", r, goal, x.eng.pos(head.Instrs[0].Pos()))
 	}
 	for p, v := range saved {
 		fr.vals[p] = v
